@@ -22,7 +22,7 @@ RULE = (
 )
 BOUND = {
     "quick": "16 functions, <=2 deviating coordinates; scale_fwd/scale_bwd: 10 factors x 6 shapes x 4 dtypes",
-    "thorough": "<=3 deviating coordinates",
+    "thorough": "<=4 deviating coordinates",
 }
 EXHAUSTIVE = {"quick": True, "thorough": True}
 ASSUMPTIONS = [
